@@ -79,10 +79,10 @@ func genExt(t *rapid.T, vers []uint64) []byte {
 
 func genLongKey(t *rapid.T) []byte {
 	var n int
-	switch rapid.IntRange(0, 19).Draw(t, "longkind") {
+	switch rapid.IntRange(0, 59).Draw(t, "longkind") {
 	case 0:
 		n = rapid.SampledFrom([]int{30000, 65000}).Draw(t, "hugelen") // txn.go: maxKeySize = 65000
-	case 1, 2, 3:
+	case 1, 2, 3, 4, 5, 6, 7, 8, 9:
 		n = rapid.IntRange(300, 3000).Draw(t, "longlen")
 	default:
 		n = rapid.IntRange(13, 300).Draw(t, "midlen")
@@ -149,7 +149,9 @@ func genValueShape(t *rapid.T, e *Ent, bulk bool) {
 
 // genEnts draws the insertion sequence (a multiset: repeats are overwrites).
 func genEnts(t *rapid.T, m material) (ents []Ent, flavour string) {
-	fl := rapid.IntRange(0, 39).Draw(t, "flavour")
+	// weights out of 40: fan 2, verfan 2, bulk 1, mixed 35.  rapid's integer draws are biased
+	// towards small values, so the draw is scrambled first (0 still maps to "mixed" for shrinking).
+	fl := 39 - int((rapid.Uint64().Draw(t, "flavour")*0x9e3779b97f4a7c15)>>33)%40
 	switch {
 	case fl == 0 || fl == 1: // child fan-out at one byte position: Node16/48/256 growth
 		flavour = "fan"
@@ -202,11 +204,11 @@ type openSet struct{ order, pad bool }
 
 func openFindings() openSet { return openSet{pbt.Open(kfOrder), pbt.Open(kfPad)} }
 
-func (o openSet) hits(a, b Tgt) bool {
+func (o openSet) hits(a, b Tgt, ka, kb []byte) bool {
 	if !o.order && !o.pad {
 		return false
 	}
-	switch f7Class(a, b) {
+	switch f7ClassK(a, b, ka, kb) {
 	case "order":
 		return o.order
 	case "pad":
@@ -217,18 +219,19 @@ func (o openSet) hits(a, b Tgt) bool {
 
 // sanitize drops entries (in insertion order, first one stays) whose internal
 // key pairs with an already kept key in the class of an open finding.
-func sanitize(ents []Ent, o openSet) (kept []Ent, uniq []Tgt, excluded int) {
+func sanitize(ents []Ent, o openSet) (kept []Ent, uniq []Tgt, ukeys [][]byte, excluded int) {
 	seen := map[string]bool{}
 	for _, e := range ents {
 		t := e.tgt()
-		id := string(ikey(t))
+		k := ikey(t)
+		id := string(k)
 		if seen[id] {
 			kept = append(kept, e)
 			continue
 		}
 		bad := false
-		for _, u := range uniq {
-			if o.hits(t, u) {
+		for i, u := range uniq {
+			if o.hits(t, u, k, ukeys[i]) {
 				bad = true
 				break
 			}
@@ -239,6 +242,7 @@ func sanitize(ents []Ent, o openSet) (kept []Ent, uniq []Tgt, excluded int) {
 		}
 		seen[id] = true
 		uniq = append(uniq, t)
+		ukeys = append(ukeys, k)
 		kept = append(kept, e)
 	}
 	return
@@ -266,19 +270,20 @@ func mutateKey(k []byte) [][]byte {
 
 // genTargets: every stored key, its neighbours (version ±1, extreme versions, user key ± one byte)
 // and a few drawn targets; targets in the class of an open finding relative to a stored key are dropped.
-func genTargets(t *rapid.T, m material, uniq []Tgt, o openSet) (tgts []Tgt, excluded int) {
+func genTargets(t *rapid.T, m material, uniq []Tgt, ukeys [][]byte, o openSet) (tgts []Tgt, excluded int) {
 	seen := map[string]bool{}
 	add := func(x Tgt) {
 		if len(x.K) == 0 {
 			return
 		}
-		id := string(ikey(x))
+		k := ikey(x)
+		id := string(k)
 		if seen[id] {
 			return
 		}
 		seen[id] = true
-		for _, u := range uniq {
-			if o.hits(x, u) {
+		for i, u := range uniq {
+			if o.hits(x, u, k, ukeys[i]) {
 				excluded++
 				return
 			}
@@ -301,6 +306,10 @@ func genTargets(t *rapid.T, m material, uniq []Tgt, o openSet) (tgts []Tgt, excl
 			add(Tgt{u.CF, u.K, u.V - 1})
 		}
 		add(Tgt{u.CF, u.K, math.MaxUint64}) // "latest version" read: what DB.Get / iterator Seek use
+		if len(u.K) > 4096 { // huge keys: keep the case small
+			add(Tgt{u.CF, append(append(HB{}, u.K...), 0x00), u.V})
+			continue
+		}
 		add(Tgt{u.CF, u.K, 0})
 		for _, k := range mutateKey(u.K) {
 			add(Tgt{u.CF, HB(k), u.V})
@@ -350,9 +359,10 @@ func gen(t *rapid.T) Case {
 	var ents []Ent
 	ents, c.Flavour = genEnts(t, m)
 	var uniq []Tgt
+	var ukeys [][]byte
 	var x1, x2 int
-	c.Ents, uniq, x1 = sanitize(ents, o)
-	c.Tgts, x2 = genTargets(t, m, uniq, o)
+	c.Ents, uniq, ukeys, x1 = sanitize(ents, o)
+	c.Tgts, x2 = genTargets(t, m, uniq, ukeys, o)
 	c.Excl = x1 + x2
 	return c
 }
@@ -367,6 +377,9 @@ type CCase struct {
 	// SerialART: inserts into the ART are serialised by a mutex (set by the generator while
 	// C07-ARTrace is open, so the rest of the concurrent check stays usable).
 	SerialART bool `json:"serial_art,omitempty"`
+	// Rounds > 1 repeats the whole experiment on fresh engines (hand-written replay files use
+	// it so a schedule-dependent failure reproduces reliably); generated cases use 1.
+	Rounds int `json:"rounds,omitempty"`
 }
 
 const writers = 4
@@ -381,8 +394,9 @@ func genConc(t *rapid.T) CCase {
 		ents = append(ents, more...)
 	}
 	var uniq []Tgt
+	var ukeys [][]byte
 	var x1, x2 int
-	ents, uniq, x1 = sanitize(ents, o)
+	ents, uniq, ukeys, x1 = sanitize(ents, o)
 	c.Parts = make([][]Ent, writers)
 	if c.Overlap {
 		// every entry goes to a drawn non-empty subset of the goroutines
@@ -407,7 +421,7 @@ func genConc(t *rapid.T) CCase {
 			c.Parts[g] = append(c.Parts[g], e)
 		}
 	}
-	c.Tgts, x2 = genTargets(t, m, uniq, o)
+	c.Tgts, x2 = genTargets(t, m, uniq, ukeys, o)
 	c.Excl = x1 + x2
 	return c
 }
